@@ -51,6 +51,7 @@ CASES = {
     'layout':   {'entries': 2, 'alternatives': 1, 'no_version': True, 'archqual': True, 'ws_styles': 4, 'empty_entries': True, 'trailing_comma': True},
     'parts':    {'entries': 1, 'alternatives': 1, 'archs': 2, 'profile_groups': 1, 'profile_terms': 2, 'version_kinds': 2, 'ws_styles': 2},
     'parts-layout': {'entries': 1, 'alternatives': 1, 'archs': 1, 'profile_groups': 1, 'profile_terms': 2, 'no_version': True, 'ws_styles': 5},
+    'qualifier-layout': {'entries': 1, 'alternatives': 2, 'archqual': True, 'archqual_ws': True, 'version_kinds': 1, 'ws_styles': 5},
     'substvar': {'entries': 2, 'alternatives': 1, 'substvars': True, 'version_kinds': 1, 'ws_styles': 1},
 }
 FULL = {'sorting': {'entries': 2, 'alternatives': 2, 'version_kinds': 1, 'ws_styles': 1},
@@ -133,7 +134,12 @@ class C13(Harness):
         def key_got(r): return (r['name'], r['archqual'], tuple(r['version']) if r['version'] else None, tuple(r['architectures']) if r['architectures'] is not None else None, tuple(tuple(g) for g in r['profiles']))
         W = sorted(tuple(sorted(map(repr, (key_want(r) for r in en)))) for en in want)
         G = sorted(tuple(sorted(map(repr, (key_got(r) for r in en)))) for en in st['entries'])
-        if W != G:
+        def key_want_noneg(r): return (r['name'], r['archqual'], tuple(r['version']) if r['version'] else None, tuple(a for n, a in r['archs']) if r['archs'] is not None else None, tuple(tuple(('!' if n else '') + p for n, p in g) for g in r['profiles']))
+        W0 = sorted(tuple(sorted(map(repr, (key_want_noneg(r) for r in en)))) for en in want)
+        if W != G and W0 == G:
+            # the only difference is the lost negation of architectures (positional diffing would mislabel it once the sort order changes)
+            v.append(('meaning-changed:architectures-negation-lost:%s' % tag, 'wrap_and_sort(%r) = %r denotes %r' % (s, t, st['entries'])))
+        elif W != G:
             aspects = c10.diff_structure(sorted(st['entries'], key=lambda en: sorted(repr(key_got(r)) for r in en)), sorted(want, key=lambda en: sorted(repr(key_want(r)) for r in en)))
             v.append(('meaning-changed:%s:%s' % ('+'.join(aspects) or 'order-dependent', tag), 'wrap_and_sort(%r) = %r denotes %r' % (s, t, st['entries'])))
         if sorted(st['substvars']) != sorted(w['substvars']): v.append(('substvars-lost:' + tag, 'wrap_and_sort(%r) = %r: substitution variables %r became %r' % (s, t, w['substvars'], st['substvars'])))
